@@ -109,8 +109,10 @@ def plant(fault, level, delta, w, n):
         add(Inst("bad", clash, {"q": g}))
     elif fault == 20:  # pair: bundle member missing / scalar-vs-bundle mismatch
         add(Inst("bad", pcell, {"q": Bun("bb"), "g": g}, kind="pair"))
-    else:             # array with a missing port connection
+    elif delta > 0:   # array with a missing port connection
         add(Inst("bad", cell, {"a": Sig("big")}, kind="array", n=n))
+    else:             # array with a connection to a port its target does not have
+        add(Inst("bad", cell, {"a": Sig("big"), "b": g, "zz": g}, kind="array", n=n))
     return top
 
 
